@@ -14,4 +14,24 @@ MUTANTS = {
   ("json-bundle-id-doc-scope", J, "document.add_bundle(bundle, bundle.valid_qualified_name(bundle_id))", "document.add_bundle(bundle, document.valid_qualified_name(bundle_id))"),
   ("json-bool-as-literal-when-multi", J, "encode_json_representation(value) for value in values", "encode_json_representation(value) if not isinstance(value, bool) else str(value) for value in values"),
  ],
+ "C03": [
+  ("ns-revert-fixA-no-rehome", M, "return self.valid_qualified_name(parent_qname)", "return parent_qname"),
+  ("ns-unused-prefix-returns-original", M, "                return new_prefix\n", "                return original_prefix\n"),
+  ("ns-drop-uri-map", M, "        self._uri_map[uri] = namespace\n", "        pass\n"),
+  ("ns-clash-overwrites", M, "            new_prefix = self._get_unused_prefix(prefix)\n", "            new_prefix = prefix\n"),
+  ("ns-dn-not-registered", M, "                    dn_namespace = self.add_namespace(dn_namespace)\n", ""),
+  ("ns-revert-replace", M, "return namespace[str_value[len(namespace.uri) :]]", 'return namespace[str_value.replace(namespace.uri, "")]'),
+  ("ns-bundle-id-not-rehomed", M, "        b._identifier = b.valid_qualified_name(valid_id)\n", ""),
+  ("ns-default-eq-ignores-uri", M, "                if self._default == namespace:", "                if self._default is not None:"),
+ ],
+ "C04": [
+  ("eq-revert-identifier-fix", M, "        if self._identifier != other._identifier:\n", "        if self._identifier and not (self._identifier == other._identifier):\n"),
+  ("eq-revert-bundle-count-fix", M, "        if len(self._bundles) != len(other._bundles):\n            return False\n", ""),
+  ("eq-record-ignores-type", M, "        if self.get_type() != other.get_type():\n            return False\n", ""),
+  ("eq-bundle-len-only", M, "        #  check if all records for equality\n        for record_a in this_records:", "        #  check if all records for equality\n        for record_a in []:"),
+  ("eq-doc-ignores-bundle-content", M, "            if bundle != other_bundle:\n                return False\n", ""),
+  ("hash-includes-bundle", M, "return hash((self.get_type(), self._identifier, frozenset(self.attributes)))", "return hash((self.get_type(), self._identifier, frozenset(self.attributes), id(self._bundle)))"),
+  ("eq-attrs-subset", M, "        return set(self.attributes) == set(other.attributes)", "        return set(self.attributes) <= set(other.attributes)"),
+  ("literal-eq-ignores-lang", M, "                and self._langtag == other.langtag\n", ""),
+ ],
 }
